@@ -1,7 +1,12 @@
 package pure
 
 import (
+	"encoding/json"
 	"fmt"
+	"os"
+	"os/exec"
+	"path/filepath"
+	"strconv"
 	"strings"
 	"testing"
 	"unicode"
@@ -174,19 +179,146 @@ func oracleC19(c c19Case) error {
 	return nil
 }
 
+// ---- purity across call histories: the same inputs, converted in two fresh processes in opposite orders ----
+
+type c19History struct {
+	Inputs [][]byte `json:"inputs"`
+}
+
+var c19Vocabulary = []string{"id", "ID", "user", "User", "URL", "url", "api", "API", "v2", "name", "HTTP", "http", "x", "s", "Id", "2fa", "é", "Server"}
+
+func genC19History(t *rapid.T) c19History {
+	var h c19History
+	n := rapid.IntRange(4, 24).Draw(t, "ninputs")
+	for i := 0; i < n; i++ {
+		k := rapid.IntRange(1, 3).Draw(t, "nwords")
+		var b strings.Builder
+		for j := 0; j < k; j++ {
+			if j > 0 {
+				b.WriteString(rapid.SampledFrom([]string{"_", "-", " ", "", "."}).Draw(t, "joiner"))
+			}
+			b.WriteString(rapid.SampledFrom(c19Vocabulary).Draw(t, "word"))
+		}
+		h.Inputs = append(h.Inputs, []byte(b.String()))
+	}
+	return h
+}
+
+// c19Convert applies every converter (and Split) to the inputs in the given order and returns the results by input index.
+func c19Convert(inputs [][]byte, order []int) [][]string {
+	out := make([][]string, len(inputs))
+	for _, i := range order {
+		s := string(inputs[i])
+		row := []string{strconv.QuoteToASCII(strings.Join(camelcase.Split(s), "|"))}
+		for _, cv := range c19Converters {
+			row = append(row, strconv.QuoteToASCII(cv.f(s)))
+		}
+		out[i] = row
+	}
+	return out
+}
+
+// TestC19Child is the child role: a fresh process converts the inputs in the requested order.
+func TestC19Child(t *testing.T) {
+	f := os.Getenv("VT_C19_CHILD")
+	if f == "" {
+		t.Skip("child role only")
+	}
+	b, err := os.ReadFile(f)
+	if err != nil {
+		t.Fatal(err)
+	}
+	var job struct {
+		Inputs [][]byte `json:"inputs"`
+		Order  []int    `json:"order"`
+	}
+	if err := json.Unmarshal(b, &job); err != nil {
+		t.Fatal(err)
+	}
+	out, _ := json.Marshal(c19Convert(job.Inputs, job.Order))
+	if err := os.WriteFile(f+".out", out, 0o644); err != nil {
+		t.Fatal(err)
+	}
+}
+
+func c19InChild(inputs [][]byte, order []int) [][]string {
+	dir, err := os.MkdirTemp("", "c19")
+	if err != nil {
+		panic("harness: " + err.Error())
+	}
+	defer os.RemoveAll(dir)
+	in := filepath.Join(dir, "job.json")
+	b, _ := json.Marshal(map[string]any{"inputs": inputs, "order": order})
+	if err := os.WriteFile(in, b, 0o644); err != nil {
+		panic("harness: " + err.Error())
+	}
+	cmd := exec.Command(os.Args[0], "-test.run", "^TestC19Child$")
+	cmd.Env = append(os.Environ(), "VT_C19_CHILD="+in, "VT_OUT=")
+	if out, err := cmd.CombinedOutput(); err != nil {
+		panic(fmt.Sprintf("harness: child failed: %v\n%s", err, out))
+	}
+	rb, err := os.ReadFile(in + ".out")
+	if err != nil {
+		panic("harness: " + err.Error())
+	}
+	var res [][]string
+	if err := json.Unmarshal(rb, &res); err != nil {
+		panic("harness: " + err.Error())
+	}
+	return res
+}
+
+func oracleC19History(h c19History) error {
+	n := len(h.Inputs)
+	fwd, rev := make([]int, n), make([]int, n)
+	for i := range fwd {
+		fwd[i], rev[i] = i, n-1-i
+	}
+	a, b := c19InChild(h.Inputs, fwd), c19InChild(h.Inputs, rev)
+	names := []string{"Split"}
+	for _, cv := range c19Converters {
+		names = append(names, cv.name)
+	}
+	for i := range h.Inputs {
+		for k := range names {
+			if a[i][k] != b[i][k] {
+				return fmt.Errorf("%s(%q) = %s in a fresh process that converts %q first-to-last, and %s in one that converts them last-to-first: not a pure function of its input",
+					names[k], h.Inputs[i], a[i][k], inputsAsStrings(h.Inputs), b[i][k])
+			}
+		}
+	}
+	return nil
+}
+
+func inputsAsStrings(in [][]byte) []string {
+	out := make([]string, len(in))
+	for i, b := range in {
+		out[i] = string(b)
+	}
+	return out
+}
+
 func TestC19(t *testing.T) {
+	if os.Getenv("VT_C19_CHILD") != "" {
+		t.Skip("child role")
+	}
 	r := ev.Begin(t, ev.Meta{
 		ID:    "C19",
 		Level: "exploration",
 		Rule: "strings of 0-12 pieces drawn from ASCII words, separators (biased to any position incl. 0), digits, Unicode " +
 			"upper/lower/title-case letters, combining marks, arbitrary runes, raw bytes (invalid UTF-8); non-trivial = first rune is " +
 			"not a letter/digit, or >=3 rune classes (lower/upper/digit/other) are mixed, or the input is invalid UTF-8; distinct by input bytes",
-		Assumptions: []string{"purity is judged by repeated calls (same goroutine, another goroutine, re-export in pkg/gengo)"},
+		Assumptions: []string{"purity is judged by repeated calls (same goroutine, another goroutine, re-export in pkg/gengo) and, in the history sub, by converting the same word-sharing inputs in two fresh processes in opposite orders"},
 	})
 	defer r.Finish()
 	ev.Search(r, ev.Sub[c19Case]{
 		Name: "split", Gen: genC19, Oracle: oracleC19, NonTrivial: c19NonTrivial, Classes: c19Classes,
 		Budget: ev.Budget{Quick: 30000, Thorough: 400000}, MinNonTrivial: 0.3,
+	})
+	ev.Search(r, ev.Sub[c19History]{
+		Name: "history", Gen: genC19History, Oracle: oracleC19History,
+		NonTrivial: func(h c19History) bool { return len(h.Inputs) >= 6 },
+		Budget:     ev.Budget{Quick: 150, Thorough: 1500}, MinNonTrivial: 0.3,
 	})
 }
 
